@@ -1758,11 +1758,9 @@ func ExecSelect(query *Query, current []any) ([]any, error) {
 		switch current := current.(type) {
 		case []any:
 			{
-				rs, err := ExecSelect(query, current)
-				if err != nil {
-					return nil, err
-				}
-				copy = append(copy, rs)
+				// an inner dimension: its rows have already been projected
+				// by the exec of their own copy of the query
+				copy = append(copy, current)
 			}
 		case Map:
 			{
